@@ -101,6 +101,7 @@ def run(ctx):
     from . import c03_view
     c03_view.check(ctx)
     c03_view.check_stop_maintenance(ctx)
+    c03_view.check_async_twins(ctx, F)
 
     # ---- R3.3a exhaustiveness of single-element tables --------------------------------------------------------------
     ctx.rule('R3.3a', 'every (class, field) of the grammar is a key of _PUT_ONE_HANDLERS and _GET_ONE_HANDLERS or in the '
